@@ -482,6 +482,7 @@ class Device(object):
         s.session = self.sessions
         s.open_pk = len(self.host_pkts) - 1
         s.open_t = now
+        s.opener = getattr(self, 'cur_actor', 0)
         self.all_streams.append(s)
         self.by_local[local] = s
         svc = self._make_service(s, dest)
